@@ -492,12 +492,12 @@ class SymInt(SymNum):
         raise ModelGap("mod by non-constant / non-positive")
 
     def __rfloordiv__(self, o):
-        raise ModelGap("const // symbolic")
+        return o // cur().concretize_int(self)
 
     def __rmod__(self, o):
         if isinstance(o, str):
             return cur().format_percent(o, self)
-        raise ModelGap("const % symbolic")
+        return o % cur().concretize_int(self)
 
 
 # ----------------------------------------------------------------------------------------
@@ -599,6 +599,18 @@ class Engine(object):
         for c in cons:
             self.assume(c)
         return x
+
+    def free_reals(self, names):
+        """fresh base reals without box (used by contract stubs); the caller constrains them with one assume()"""
+        out = []
+        for name in names:
+            i = self._newvar(name, "R")
+            self.base.append(i)
+            x = SymReal(Lin.var(i))
+            self.inputs[name] = x
+            self.w[i] = self.w0.get(name, F0)
+            out.append(x)
+        return out
 
     def integer(self, name, lo=None, hi=None):
         i = self._newvar(name, "I")
@@ -794,19 +806,38 @@ class Engine(object):
         return d
 
     def concretize_int(self, x):
-        """fork over the feasible values of a symbolic int (used by range(k), indexing)"""
+        """fork over the feasible values of a symbolic int (used by range(k), indexing, k % n).
+        The decision token records the VALUE tried, so re-execution asks the same question."""
         if not x.lin.t:
             return int(x.lin.c)
-        v = int(x.lin.eval(self.w))
-        # fork: x == v (witness side) versus x != v; repeated on re-execution
         guard = 0
         while True:
             guard += 1
             if guard > 64:
                 raise BoundExceeded("concretize_int: more than 64 values")
-            if self.branch(x == v):
+            if self.idx < len(self.prefix):
+                v, d = self.prefix[self.idx]
+                self.idx += 1
+                c = _b(x == v)
+                self.solver.add(c.z3(self) if d else z3.Not(c.z3(self)))
+            else:
+                if len(self.prefix) >= self.max_decisions:
+                    raise BoundExceeded("decision bound")
+                v = int(x.lin.eval(self.w))
+                c = _b(x == v)
+                zc = c.z3(self)
+                self.stats.branch_points += 1
+                r = self._check(z3.Not(zc))
+                if r == z3.sat:
+                    self.work.append((self.prefix[: self.idx] + [(v, False)], self._model_to_base(self.solver.model())))
+                elif r != z3.unsat:
+                    self.gap("solver unknown at concretize_int")
+                d = True
+                self.prefix.append((v, True))
+                self.idx += 1
+                self.solver.add(zc)
+            if d:
                 return v
-            v = int(x.lin.eval(self.w))
 
     # ------------------------------------------------------------------ auxiliary variables
     def _aux(self, name, sort, compute, nl=False):
@@ -1004,7 +1035,7 @@ class Engine(object):
         return {self.vname[i]: _fmt_frac(self.w[i]) for i in self.base}
 
     # ------------------------------------------------------------------ exploration
-    def explore(self, fn, max_paths=10**9, deadline=None, keep_samples=3, roots=None):
+    def explore(self, fn, max_paths=10**9, deadline=None, keep_samples=3, roots=None, shard=None):
         global ENGINE
         self.work = list(roots) if roots else [([], {})]
         ENGINE = self
@@ -1019,6 +1050,8 @@ class Engine(object):
                 st.gaps.append("deadline reached with %d work items left" % len(self.work))
                 break
             prefix, wit = self.work.pop()
+            if shard is not None and len(prefix) >= shard[2] and hash(tuple(prefix[: shard[2]])) % shard[1] != shard[0]:
+                continue  # another shard of this configuration explores that subtree
             self._reset_path(prefix, wit)
             try:
                 fn(self)
